@@ -11,6 +11,10 @@ node (fresh, empty, with the current member list).  After every step the propert
      (refusals are behaviour: counted in the coverage)
   M3 no two leaders in one term; state-machine safety (harness/monitors.py)
   M4 `_removeNodeFromCluster` of the node's own address is answered REQUEST_DENIED and queues nothing
+  M5 compactions on any node and lagging nodes that catch up by SNAPSHOT: the fold base of a node whose log starts
+     at index f > 1 is the member set defined by the COMMITTED membership commands below f (recorded when any node
+     applies them: every committed position is applied by somebody before it can be compacted); at quiescence all
+     up-to-date members hold the same member set
 """
 import collections
 import pickle
@@ -26,6 +30,7 @@ SIG_D6 = "membership:reapply-at-commit-undoes-later-change"
 SIG_FOLD = "membership:members-not-fold-of-log"
 SIG_GATE = "membership:change-accepted-while-earlier-uncommitted"
 SIG_SELF = "membership:remove-self-not-denied"
+SIG_AGREE = "membership:nodes-disagree-on-member-set"
 
 
 def mem_entries(sim, i):
@@ -60,6 +65,8 @@ class Cluster(object):
         self.started = set(self.initial)
         self.seen_mem = collections.defaultdict(set)    # node -> membership entry (idx, term) already seen in its log
         self.isolated = set()
+        self.committed_mem = {}   # index -> (kind, node): membership commands as applied (= committed) by any node
+        self.max_applied = 1      # highest index some node has applied
         for i in self.initial:
             self.hook(i)
         self.res = []
@@ -78,6 +85,19 @@ class Cluster(object):
             if frozenset((i, n.id)) in sim.alive or (i, n.id) in sim.up:
                 sim.disconnect(i, n.id)
         t.dropNode = drop
+        if not getattr(sim.Obj, "_c10_apply_hook", False):
+            # class-level wrapper on the simulator's own subclass (instance attributes would end up in snapshots)
+            base_apply = sim.so.SyncObj._SyncObj__doApplyCommand
+
+            def apply(o, command):
+                idx = o._SyncObj__raftLastApplied + 1
+                if command[:1] == b"\x02":
+                    req = pickle.loads(command[1:])
+                    self.committed_mem.setdefault(idx, (req[0], req[1]))
+                self.max_applied = max(self.max_applied, idx)
+                return base_apply(o, command)
+            sim.Obj._SyncObj__doApplyCommand = apply
+            sim.Obj._c10_apply_hook = True
 
     def sync_connections(self):
         sim = self.sim
@@ -97,8 +117,25 @@ class Cluster(object):
     def members(self, i):
         return set(n.id for n in self.sim.objs[i].otherNodes)
 
+    def ref_cfg(self, upto):
+        """member set (all voters) defined by the committed membership commands with index <= upto"""
+        m = set(self.initial)
+        for idx in sorted(self.committed_mem):
+            if idx <= upto:
+                k, n = self.committed_mem[idx]
+                m = step_set(m, None, k, n)
+        return m
+
     def fold(self, i):
-        m = set(self.base[i])
+        first = self.sim.log_of(i)[0][0]
+        if first <= 1:
+            m = set(self.base[i])
+        elif first - 1 <= self.max_applied:
+            m = self.ref_cfg(first - 1) - {i}     # compacted / installed prefix: committed, applied by somebody
+            self.cov["fold-base:committed-prefix"] += 1
+        else:
+            self.cov["fold-base:unknown"] += 1
+            return None
         for (idx, term, k, n) in mem_entries(self.sim, i):
             m = step_set(m, i, k, n)
         return m
@@ -108,7 +145,7 @@ class Cluster(object):
         self.sync_connections()
         for i in list(sim.objs):
             have, want = self.members(i), self.fold(i)
-            if have != want:
+            if want is not None and have != want:
                 la = sim.objs[i].raftLastApplied
                 ents = mem_entries(sim, i)
                 # D6 pattern: every node in the difference has an APPLIED (idx <= lastApplied) membership entry that
@@ -140,6 +177,27 @@ class Cluster(object):
                                                        % (what, i, e, earlier, o.raftLastApplied)})
             for e in cur:
                 self.seen_mem[i].add((e[0], e[1]))
+
+    def agreement(self):
+        """at quiescence: the members that are up to date hold the same member set, the one defined by the committed
+        membership commands"""
+        sim = self.sim
+        top = max(sim.objs[i].raftLastApplied for i in sim.objs)
+        if top > self.max_applied:
+            return
+        ref = self.ref_cfg(top)
+        for i in sorted(sim.objs):
+            o = sim.objs[i]
+            if i not in ref or o.raftLastApplied != top or sim.last_index(i) != top:
+                continue
+            self.cov["agreement:compared"] += 1
+            have = self.members(i) | {i}
+            if have != ref:
+                self.viols.append({"signature": SIG_AGREE,
+                                   "what": "quiescent cluster, everything up to index %d applied: node %s has member set %s, the "
+                                           "committed membership commands define %s (others: %s)"
+                                           % (top, i, sorted(have), sorted(ref),
+                                              {j: sorted(self.members(j) | {j}) for j in sorted(sim.objs) if j != i})})
 
     def request(self, at, kind, node):
         sim = self.sim
@@ -221,13 +279,16 @@ def scenario(ctx, rng, steps):
                 what += " + back-to-back"
                 c.cov["back-to-back"] += 1
         elif r < 0.30 and L is not None and isolated is None:
+            victim = L
+            if rng.random() < 0.4:
+                victim = rng.choice(live)
             for j in live:
-                if j != L:
-                    sim.disconnect(L, j)
-            isolated = L
-            c.isolated.add(L)
-            what = "isolate leader %s" % L
-            c.cov["isolate-leader"] += 1
+                if j != victim:
+                    sim.disconnect(victim, j)
+            isolated = victim
+            c.isolated.add(victim)
+            what = "isolate %s %s" % ("leader" if victim == L else "follower", victim)
+            c.cov["isolate-leader" if victim == L else "isolate-follower"] += 1
         elif r < 0.38 and isolated is not None:
             c.isolated.discard(isolated)
             what = "heal %s" % isolated
@@ -242,6 +303,14 @@ def scenario(ctx, rng, steps):
                     if c.start_node(node):
                         what = "start %s" % node
                         break
+        elif r < 0.52:
+            i = rng.choice(live)
+            sim.compact(i)
+            sim.tick(i, 0.0625)
+            sim.tick(i, 0.0625)
+            what = "compact %s" % i
+            if sim.log_of(i)[0][0] > 1:
+                c.cov["compacted-log"] += 1
         elif r < 0.75:
             sim.run(rng.randint(1, 3), dt=rng.choice([0.0625, 0.125, 0.25]))
             what = "run"
@@ -262,6 +331,7 @@ def scenario(ctx, rng, steps):
         sim.run(1)
         c.sync_connections()
     c.check("quiesce")
+    c.agreement()
     v = c.viols + monitors.leaders_per_term(sim) + monitors.sm_safety(sim)
     for e in sim.errors:
         v.append({"signature": "exception-escaped:%s" % e[1], "what": "node %s: %s %s" % (e[0], e[1], e[2][:100])})
@@ -271,6 +341,65 @@ def scenario(ctx, rng, steps):
             terms[term] += 1
     c.cov["leader-changes"] += max(0, len(terms) - 1)
     return c, v
+
+
+def directed_snapshot(ctx, rng, grow=2):
+    """A member is cut off while the cluster grows by `grow` nodes (one at a time, each committed and started) and
+    every other node compacts its log: after the heal it learns the new members from a SNAPSHOT, not from entries."""
+    c = Cluster(ctx, rng, 4)      # 4 voters: with one cut off the other three still commit an addition
+    sim = c.sim
+    L = sim.elect()
+    sim.run(3)
+    if L is None:
+        return c, [], "no leader"
+    victim = rng.choice([i for i in sim.voters if i != L])
+    for j in list(sim.objs):
+        if j != victim:
+            sim.disconnect(victim, j)
+    c.isolated.add(victim)
+    c.cov["isolate-follower"] += 1
+    for node in ["e", "f"][:grow]:
+        for attempt in range(60):
+            live = [i for i in sim.objs if i != victim]
+            L = sim.leader(live)
+            if L is not None and node not in c.members(L):
+                c.request(L, "add", node)
+            sim.run(2)
+            c.check("grow %s" % node)
+            if node not in c.started and c.start_node(node):
+                break
+        sim.run(6)
+        c.check("started %s" % node)
+    L = sim.leader([i for i in sim.objs if i != victim])
+    if L is not None:
+        for k in range(3):
+            sim.submit(L, "g%d" % k)
+    sim.run(6)
+    for i in list(sim.objs):
+        if i != victim:
+            sim.compact(i)
+    sim.run(4)
+    if all(sim.log_of(i)[0][0] > 1 for i in sim.objs if i != victim):
+        c.cov["compacted-log"] += 1
+    first_before = sim.log_of(victim)[0][0]
+    c.isolated.discard(victim)
+    c.sync_connections()
+    for _ in range(24):
+        sim.run(1)
+        c.sync_connections()
+        c.check("catch-up of %s" % victim)
+        if c.viols:
+            break
+    note = None
+    if sim.log_of(victim)[0][0] > first_before:
+        c.cov["caught-up-by-snapshot"] += 1
+    else:
+        note = "victim did not need a snapshot"
+    c.agreement()
+    v = c.viols + monitors.leaders_per_term(sim) + monitors.sm_safety(sim)
+    for e in sim.errors:
+        v.append({"signature": "exception-escaped:%s" % e[1], "what": "node %s: %s %s" % (e[0], e[1], e[2][:100])})
+    return c, v, note
 
 
 def remove_self_check(ctx):
@@ -298,8 +427,16 @@ def run(ctx):
     runs = ctx.scale(500, 8000)
     end = t0 + ctx.budget_s * (0.5 if ctx.tier == "quick" else 0.9)
     sample = None
+    for g in (1, 2):
+        for rep in range(ctx.scale(1, 4)):
+            c, v, note = directed_snapshot(ctx, rng, g)
+            n += 1
+            cov.update(c.cov)
+            for x in v:
+                x.setdefault("replay", {"directed": "snapshot", "grow": g, "seed": ctx.seed, "trace": c.sim.trace[-40:]})
+            viols += v
     for k in range(runs):
-        if time.time() > end:
+        if time.time() > end or [x for x in viols if x["signature"] != SIG_D6]:
             break
         c, v = scenario(ctx, rng, rng.randint(15, 45))
         n += 1
@@ -319,7 +456,9 @@ def run(ctx):
             out.append(x)
     res = {"name": "corr.c10_membership", "cases": n, "distinct": n, "coverage": dict(sorted(cov.items())),
            "samples": [sample], "disagreements": [], "violations": out[:4], "wall_s": round(time.time() - t0, 2)}
-    need = ["request:add", "request:rem", "callback:6", "callback:0", "back-to-back", "isolate-leader", "start-node"]
+    need = ["request:add", "request:rem", "callback:6", "callback:0", "back-to-back", "isolate-leader", "start-node",
+            "isolate-follower", "compacted-log", "fold-base:committed-prefix", "agreement:compared",
+            "caught-up-by-snapshot"]
     missing = [k for k in need if cov[k] == 0]
     if missing and not out:
         res["inconclusive"] = "coverage floor missed: " + ", ".join(missing)
